@@ -11,6 +11,7 @@ import (
 )
 
 func mathFloat64bits(f float64) uint64 { return math.Float64bits(f) }
+func mathFloat64frombits(b uint64) float64 { return math.Float64frombits(b) }
 func mathAbs(f float64) float64        { return math.Abs(f) }
 
 var zeroTimeNS = new(big.Int).Mul(big.NewInt(-62135596800), big.NewInt(1_000_000_000))
